@@ -30,7 +30,10 @@ class C06(Prop):
             "tri-state of the seven support flags (3^7) x sampled version/protocol/stream-type profiles; the full profile product "
             "under 12 flag settings; every single include/exclude entry over version x protocol x stream type x use_tls x "
             "use_tls_client_certs (x limit/codec/compression samples) under 8 feature profiles; random configs with 0-3 include "
-            "and 0-3 exclude entries, lists with duplicates, *_UNSPECIFIED and CODEC_TEXT members. "
+            "and 0-3 exclude entries, lists with duplicates, *_UNSPECIFIED and CODEC_TEXT members; every axis list of the features with a "
+            "repeated value ((x,x), (x,x,x), (x,x,y), (x,y,x), (y,x,x)) alone and with full-/half-duplex and random entries; pairs of entries "
+            "in one configuration that differ only in one optional flag being omitted / false / true (all ordered pairs, each of the three "
+            "flags, include+exclude, include+include, exclude+exclude). "
             "c06.load: the loader glue - the real Run (Verbose, a --test-file that does not exist, so it stops after the config step) over a real "
             "scratch directory: no --conf / regular file / named pipe (stat size 0) / missing file / directory, and parseConfig called directly; "
             "the document is no bytes, the rendering of a message, or one of 8 texts protoyaml rejects (checked on every use); compared: "
@@ -59,7 +62,7 @@ class C06(Prop):
                   "compared key list determines the case set for enum numbers below 16. Trusted: Coq kernel, extraction, OCaml driver, "
                   "harness; the correspondence between model and Go code is sampled (all 3^7 flag tri-states, all single entries over the "
                   "interacting axes, thousands of random configs; for the loader: 6 ways of naming x 17 documents + random documents through "
-                  "file, pipe and direct call), not proved. The loader theorems hold for every decoder function; which of several --conf "
+                  "file, pipe and direct call; every axis list with a repeated value; every omitted/false/true pair of an optional entry flag), not proved. only_exact / duplex_entry_over_http1_rejected state the helper `only` as coded (non-empty and all elements equal, any length); exclude_explicit_false_keeps_tls / _keeps_flagged state that an explicit false in an exclude entry is not an omitted flag. The loader theorems hold for every decoder function; which of several --conf "
                   "occurrences the command line hands to Run is outside the property and not checked (seed C06-18).")
     technique = "Coq proof of model = set-comprehension spec (membership characterisation of the nested loops); differential model-vs-Go correspondence"
 
@@ -174,6 +177,61 @@ class C06(Prop):
                              c=rng.choice([0, 0, 1, 2]), z=rng.choice([0, 0, 1, 2]), s=rng.choice([0] + list(ss or (1, 2, 3, 4, 5))),
                              tls=rng.choice([0, 0, 1, 2]), certs=rng.choice([0, 0, 0, 1, 2]), limit=rng.choice([0, 0, 1, 2]))
             yield cfg(f, [near() for _ in range(rng.choice([0, 1, 2]))], [near() for _ in range(rng.choice([0, 1, 2, 3]))])
+
+        # 6. axis lists that REPEAT a value - (x,x), (x,x,x), (x,x,y), (x,y,x), (y,x,x) - on every axis of the features, alone and
+        #    with include/exclude entries that omit that axis (the helpers `only` / `contains` see the repeated list: a full-duplex or
+        #    half-duplex entry over versions [HTTP_1, HTTP_1] must still be rejected)
+        axis_vals = [(1, 2, 3), (1, 2, 3), (1, 2, 3), (1, 2, 3, 4, 5, 6), (1, 2, 3, 4, 5)]
+        dup_flags = [(0,) * 7, (0, 0, 0, 0, 2, 0, 0), (0, 1, 0, 0, 0, 0, 0), (1, 0, 2, 0, 1, 0, 0)]
+        for ax, vals in enumerate(axis_vals):
+            for x in vals:
+                shapes = [(x, x), (x, x, x)]
+                others = [y for y in vals if y != x]
+                if quick and len(others) > 2:
+                    others = rng.sample(others, 2)
+                for y in others:
+                    shapes += [(x, x, y), (x, y, x), (y, x, x)]
+                for lst in shapes:
+                    lists = [(), (), (1,), (1,), ()]
+                    lists[ax] = lst
+                    for flags in dup_flags:
+                        f = features(*lists, flags=flags)
+                        yield cfg(f)
+                        for st in (4, 5):
+                            e = entry(s=st)
+                            yield cfg(f, inc=[e])
+                            yield cfg(f, exc=[e])
+                        e = entry(v=rng.choice([0, 0, 1, 2]), p=rng.choice([0, 0, 1, 2, 3]), s=rng.choice([0, 1, 4, 5]),
+                                  tls=rng.choice(FLAGS), certs=rng.choice([0, 0, 1, 2]), limit=rng.choice([0, 0, 1, 2]))
+                        e2 = entry(v=rng.choice([0, 1, 2, 3]), p=rng.choice([0, 0, 1, 2, 3]), s=rng.choice([0, 4, 5]), tls=rng.choice(FLAGS))
+                        yield cfg(f, inc=[e], exc=[e2])
+                        yield cfg(f, inc=[e2, e])
+
+        # 7. pairs of entries in ONE configuration that differ only in one optional bool (omitted / false / true), every ordered pair of
+        #    states, for each of the three optional bools, as (include e, exclude e'), (include e, e'), (exclude e, e') and
+        #    (include e', exclude e): each entry must be resolved on its own (an omitted flag is not an explicit false)
+        pair_profiles = [features(c=(1,), z=(1,), flags=(0, 0, 2, 0, 0, 0, 0)),
+                         features(v=(1,), c=(1,), z=(1,), flags=(0, 0, 2, 0, 0, 0, 0)),
+                         features(v=(1, 2), p=(1,), c=(1,), z=(1,), s=(1, 4), flags=(0, 0, 2, 0, 2, 0, 0)),
+                         features(c=(1,), z=(1,))]
+        for rep in range(1 if quick else 12):
+            for f in pair_profiles:
+                for v, p, st in itertools.product((0, 1, 2), (0, 1), (0, 1)):
+                    for idx in (5, 6, 7):
+                        base = entry(v=v, p=p, s=st, tls=rng.choice([0, 0, 1, 2]), certs=rng.choice([0, 0, 0, 1, 2]),
+                                     limit=rng.choice([0, 0, 1, 2]))
+                        if rep == 0 and idx != 5:
+                            base[5] = 0 if rng.random() < 0.5 else base[5]
+                        for a, b in itertools.permutations(FLAGS, 2):
+                            e1 = list(base)
+                            e1[idx] = a
+                            e2 = list(base)
+                            e2[idx] = b
+                            yield cfg(f, inc=[e1], exc=[e2])
+                            yield cfg(f, inc=[e1, e2])
+                            yield cfg(f, exc=[e1, e2])
+                            if rng.random() < 0.5:
+                                yield cfg(f, inc=[entry(v=rng.choice([1, 2, 3])), e1], exc=[entry(p=rng.choice([1, 2, 3])), e2])
 
 
     # ------------------------------------------------------------------
